@@ -159,10 +159,12 @@ def shrink_history(chk, st, c, o, budget=120):
 
 class ShrinkMixin:
     """Check mix-in: the first failing history of every stream is shrunk before it becomes a replay file"""
-    def report_case(self, st, c, o, why, expected):
+    def report_case(self, st, c, o, why, expected, gc=None, prev=None):
         done = self.__dict__.setdefault("_shrunk", set())
         if isinstance(c, dict) and "ops" in c and st.name not in done and len(c["ops"]) > 1:
             done.add(st.name)            # the first failing history of every stream
             c, o = shrink_history(self, st, c, o)
             expected = self.expected(st, c, o)
-        super().report_case(st, c, o, why, expected)
+            gc = None                    # the shrunk history is what is recorded
+        # a history carries its whole context (keys, counters, every message): the preceding cases are not part of it
+        super().report_case(st, c, o, why, expected, gc=gc, prev=None)
